@@ -1,7 +1,7 @@
 (* C19 — Multipart codec round trip, truthful size, reader termination.
    Only statements; each closed by `exact` of a lemma proved in Proofs/. *)
-From AV Require Import Lib.Base Generated.MultipartGen Model.Multipart Model.MultipartSpec
-  Proofs.MultipartSize Proofs.MultipartTerm Proofs.MultipartRoundtrip Proofs.MultipartBase64 Proofs.MultipartWindow.
+From AV Require Import Lib.Base Lib.BytesX Generated.MultipartGen Model.Multipart Model.MultipartSpec
+  Proofs.MultipartSize Proofs.MultipartTerm Proofs.MultipartRoundtrip Proofs.MultipartBase64 Proofs.MultipartWindow Proofs.MultipartLimits.
 Open Scope N_scope.
 
 (* ------------------------------------------------------------------ truthful size *)
@@ -190,3 +190,45 @@ Example C19_base64_example :
   align_base64 [89; 87; 74; 106; 13; 10; 90; 71; 86] 8192 p = ([89; 87; 74; 106; 13; 10], p_set_carry [90; 71; 86] p).
 Proof. vm_compute. split; reflexivity. Qed.
 Print Assumptions C19_base64_example.
+
+(* ------------------------------------------------------------------ limits while reading; nested readers *)
+
+(* MultipartReader._read_headers, for every reader state and stream state: each accepted header line is at most
+   max_field_size bytes, at most max_headers lines are accepted; the model tests each line as it is read (the
+   translator checks that the source does: readline(max_line_length=...) and the count test inside the loop). *)
+Theorem C19_header_limits_while_reading : forall fuel r s ls s',
+  0 < r_max_field r -> read_header_lines fuel [] r s = Ok (ls, s') ->
+  Forall (fun l => lenN l <= r_max_field r) ls /\ lenN ls <= r_max_headers r.
+Proof. exact fresh_header_block_limits. Qed.
+Print Assumptions C19_header_limits_while_reading.
+
+(* MultipartReader.next(): the reader keeps its limits, and the reader it creates for a nested multipart part
+   starts with the same max_field_size, max_headers and client_max_size - so the statement above holds with the
+   TOP-LEVEL limits for the parts of nested multiparts too. *)
+Theorem C19_nested_reader_inherits_limits : forall fuel r last s x r' s',
+  reader_next fuel r last s = Ok (x, r', s') ->
+  limits_of r' = limits_of r /\ (forall hs c, x = NNested hs c -> limits_of c = limits_of r).
+Proof. exact reader_next_limits. Qed.
+Print Assumptions C19_nested_reader_inherits_limits.
+
+(* quartet alignment is switched on by the lower-cased Content-Transfer-Encoding token *)
+Theorem C19_base64_token_any_case : forall r hs hs' p v,
+  make_part r hs = Ok (FPart hs' p) -> get_header h_cte hs = Some v -> p_b64 p = list_eqb (map lower v) t_base64.
+Proof. exact make_part_b64_any_case. Qed.
+Print Assumptions C19_base64_token_any_case.
+
+Example C19_base64_token_example :
+  let r := new_reader [66] false 8190 128 1000 in
+  let hs := [([67; 111; 110; 116; 101; 110; 116; 45; 84; 114; 97; 110; 115; 102; 101; 114; 45; 69; 110; 99; 111; 100; 105; 110; 103],
+              [66; 97; 83; 69; 54; 52])] in
+  exists p, make_part r hs = Ok (FPart hs p) /\ p_b64 p = true.
+Proof. eexists. split; vm_compute; reflexivity. Qed.
+Print Assumptions C19_base64_token_example.
+
+Example C19_nested_example :
+  let r := new_reader [66] false 64 8 1000 in
+  let hs := [([67; 111; 110; 116; 101; 110; 116; 45; 84; 121; 112; 101],
+              [109; 117; 108; 116; 105; 112; 97; 114; 116; 47; 109; 105; 120; 101; 100; 59; 32; 98; 111; 117; 110; 100; 97; 114; 121; 61; 34; 105; 110; 34])] in
+  exists c, make_part r hs = Ok (FNested hs c) /\ r_boundary c = [45; 45; 105; 110] /\ limits_of c = (64, 8, 1000).
+Proof. eexists. split; [vm_compute; reflexivity|split; reflexivity]. Qed.
+Print Assumptions C19_nested_example.
